@@ -797,8 +797,8 @@ func (e *Exec) stepDerived(op *Op, mc *model.Coll) {
 	}
 	readOnly := func(name string) bool {
 		e.checked("read-is-readonly")
-		if e.Ctl.Writes > 0 || e.Ctl.WriteCommits > 0 {
-			e.fail([]string{"C09"}, "C09/read-wrote", fmt.Sprintf("%s: %s issued %d store writes", what, name, e.Ctl.Writes), nil)
+		if e.Ctl.WriteCommits > 0 {
+			e.fail([]string{"C09"}, "C09/read-wrote", fmt.Sprintf("%s: %s committed a transaction with %d store writes", what, name, e.Ctl.Writes), nil)
 			return false
 		}
 		if raw0.ok && !raw0.same(e.snap(false)) {
@@ -1385,6 +1385,23 @@ func (e *Exec) Audit() {
 				if e.Ctl.GetsUnderCursor > 0 {
 					e.probe("audit-index-scan")
 				}
+				// order: the sequence must be a valid ordering by the documents' CURRENT values
+				// (an entry left under an old value puts its document at the wrong position)
+				so := []model.SortOpt{{Field: f, Dir: dir}}
+				var prevT *model.KeyTuple
+				for i, d := range res {
+					md, ok := mc.Docs[d.ObjectId()]
+					if !ok {
+						continue
+					}
+					t := model.TupleOf(md, so)
+					if prevT != nil && model.DefinitelyAfter(*prevT, t, so) {
+						e.fail([]string{"C06", "C14", "C02", "C08", "C01"}, "C06/index-order", fmt.Sprintf("audit: enumerating %q through its index on %q (dir %d): position %d (%s) sorts before position %d (%s): an index entry does not reflect the document's current value", name, f, dir, i, model.TupleClassKey(t), i-1, model.TupleClassKey(*prevT)), map[string]string{"dir": fmt.Sprint(dir)})
+						return
+					}
+					tt := t
+					prevT = &tt
+				}
 				seen := map[string]bool{}
 				bad := ""
 				for _, d := range res {
@@ -1421,15 +1438,61 @@ func (e *Exec) Audit() {
 	e.checked("rebuild-keyset")
 	got := s.keys()
 	onlyGot, onlyWant := diffKeys(got, want)
-	if len(onlyGot) > 0 || len(onlyWant) > 0 {
-		kind := "stale"
-		if len(onlyGot) == 0 {
-			kind = "missing"
-		} else if len(onlyWant) > 0 {
-			kind = "both"
-		}
-		e.fail([]string{"C06"}, "C06/rebuild-keyset", fmt.Sprintf("audit: stored key set differs from a database freshly built from the same logical state: stale keys %s (%d), missing keys %s (%d)", showKeys(onlyGot), len(onlyGot), showKeys(onlyWant), len(onlyWant)), map[string]string{"kind": kind})
+	if len(onlyGot) == 0 && len(onlyWant) == 0 {
+		return
 	}
+	if len(got) == len(want) {
+		// Same number of keys, different keys. Either entries sit under wrong values
+		// (then the index-order and equality witnesses below see it through the
+		// API), or the key layout legitimately depends on more than the logical
+		// state (e.g. identifiers allocated at creation time): not ours to judge.
+		if e.indexWitnesses() {
+			return // a witness reported the defect
+		}
+		e.probe("keyset-differs-same-cardinality-no-api-witness")
+		return
+	}
+	kind := "stale"
+	if len(onlyGot) == 0 {
+		kind = "missing"
+	} else if len(onlyWant) > 0 {
+		kind = "both"
+	}
+	e.fail([]string{"C06"}, "C06/rebuild-keyset", fmt.Sprintf("audit: the store holds %d keys where a database freshly built from the same logical state holds %d: stale keys %s (%d), missing keys %s (%d)", len(got), len(want), showKeys(onlyGot), len(onlyGot), showKeys(onlyWant), len(onlyWant)), map[string]string{"kind": kind})
+}
+
+// indexWitnesses looks, through the public API only, for a document that an
+// equality query through an index does not find under its current value.
+func (e *Exec) indexWitnesses() bool {
+	for _, name := range e.M.CollNames() {
+		mc := e.M.Colls[name]
+		for _, f := range mc.IndexFields() {
+			for _, id := range mc.IDs() {
+				v, has := model.Lookup(mc.Docs[id], f)
+				if !has || v == nil {
+					continue
+				}
+				if s, isS := v.(string); isS && strings.HasPrefix(s, "$") {
+					continue
+				}
+				q := &model.Query{Coll: name, Crit: &model.Crit{Op: "eq", F: f, A: &model.Operand{Lit: val.Wrap(v)}}}
+				docs, err := e.findAll(QueryToClover(q))
+				if e.V != nil {
+					return true
+				}
+				if err != nil {
+					continue
+				}
+				e.checkFindAll(q, docs)
+				if e.V != nil {
+					e.V.Props = append([]string{"C06"}, e.V.Props...)
+					e.V.Rule = "C06/index-witness(" + e.V.Rule + ")"
+					return true
+				}
+			}
+		}
+	}
+	return false
 }
 
 // jsonRoundTrip is used by tests of the harness itself.
